@@ -91,6 +91,19 @@ def split_off():
     return [H(KER + "c02_split_off_len%d" % n, "stack of %d entries, split point symbolic" % n, [PS + "split_off"], timeout=900) for n in (4, 6)]
 
 
+def add_error():
+    return [H(LL + n, "%d previously recorded error(s); recovery on/off symbolic; error locations symbolic" % k, [PT + "add_error", PT + "is_in_recovery_mode"], stubs=FMT, timeout=900,
+              assumes=["one harness per number of previous errors (a symbolic Vec length ran out of memory)"])
+            for n, k in (("ll_add_error_first", 0), ("ll_add_error_second", 1))]
+
+
+def k_leg(prop, harnesses, jobs=8):
+    """Runs Kani harnesses as an additional leg of a check that is mainly decided by another engine.
+    Returns the Run object (not finished) so that the caller can merge it."""
+    coretables.ensure()
+    return run_property(prop, "model_checking", harnesses, CRATE, TARGET, replayer, jobs=jobs)
+
+
 def twins(which):
     m = {"ll": LL + "ll_steps_twin_must_fail", "lr": LR + "lr_steps_twin_must_fail", "buf": BUF + "c14_twin_must_fail", "ker": KER + "c17_kernels_twin_must_fail"}
     return [H(m[w], "vacuity twin", [], expect="fail", stubs=FMT) for w in which]
